@@ -7,7 +7,7 @@
      defect and nothing that is neither present nor a documented consequence;
      on acceptance every terminal has exactly one definition with the right
      value and kind.                                                        *)
-EXTENDS Ebnf, TLC, Json
+EXTENDS Ebnf, Predefs, TLC, Json
 
 Cases == ndJsonDeserialize("specs.ndjson")
 N == Len(Cases)
@@ -28,14 +28,6 @@ UsedNTs(ds) == UNION { RhsNTs(Rls(ds)[i].rhs) \cup {Rls(ds)[i].name} : i \in 1..
 TokDecls(ds, n) == { i \in 1..Len(ds) : ds[i].k = "tok" /\ ds[i].name = n }
 TokNames(ds) == { ds[i].name : i \in { j \in 1..Len(ds) : ds[j].k = "tok" } }
 
-PredefText == [ n \in {"$WS", "$DIGIT", "$LETTER", "$ID", "$NUMBER", "$STRING", "$COMMENT"} |->
-  CASE n = "$WS" -> "[\\x09\\x0A\\x0D\\x20]"
-    [] n = "$DIGIT" -> "[0-9]"
-    [] n = "$LETTER" -> "[A-Za-z]"
-    [] n = "$ID" -> "[A-Za-z_][0-9A-Za-z_]*"
-    [] n = "$NUMBER" -> "-?[0-9]+(\\.[0-9]+)?"
-    [] n = "$STRING" -> "\"([\\x21\\x23-\\x5B\\x5D-\\x7E]|\\\\[\\x21-\\x7E])+\""
-    [] n = "$COMMENT" -> "(#|//)[\\x09\\x20-\\x7E]*|/\\*[\\x09\\x0A\\x0D\\x20-\\x7E]*?\\*/" ]
 BadPatterns == {"[9-0]", "a{2,1}"}     \* the invalid patterns of the generator pool
 
 \* every terminal of the specification with its definitions: name |-> set of <<value, isRegex>>
